@@ -24,7 +24,8 @@ import warnings
 from hypothesis import strategies as st
 
 from vf import findings, hyp
-from vf.oracles import targetlex, struct as ostruct
+from vf.gens import c07_shapes
+from vf.oracles import c07_mssql, targetlex, struct as ostruct
 from vf.props.c02 import site_of
 
 PROPERTY = 'C07'
@@ -42,7 +43,17 @@ RULE = ('cases = (constant value, position): values = all strings of length <= 3
         'requested target -, neg (numeric constant under a unary minus at every node position) and the value-preserving '
         'wrappers coalesce(NULL, v), substring(v FROM 1) (text values) and CASE WHEN 9 = 9 THEN v END at every node position; shapes are run over '
         'the fixed seeds + all hostile-alphabet strings of length <= 2 (quick) / 3 (thorough) and a quarter of the '
-        'random cases; distinct by (value, position, ctx)')
+        'random cases; further statement forms around the position (vf/gens/c07_shapes.py, 44 contexts: the constant on '
+        'the left of =, under AND / OR / NOT, with <> < >= LIKE / NOT LIKE / IS / IS NOT / || / + / - / ->, at each '
+        'place of BETWEEN, in HAVING, in a JOIN condition, in the WHERE of UPDATE / DELETE / INSERT ... SELECT; IN '
+        'list of one element, value first / last, NOT IN, row values (5, v) inside the list; INSERT with the value in '
+        'the second row, in the first column, in the select list of INSERT ... SELECT (auto label / alias), without a '
+        'column list (every name declines: fallback text), raw python values with is_plain=False; UPDATE with two SET '
+        'items (value first / last) and without WHERE; select list with FROM, after a column, DISTINCT, inside a '
+        'sub-select in FROM, inside a scalar sub-select, in a UNION branch, under CAST) are run over the fixed seeds + '
+        'all hostile-alphabet strings of length <= 1 (quick) / 2 (thorough) and an eighth of the random cases; raw '
+        'dates / datetimes in Insert.values (insert_raw) are judged too (get_exec_params hands them on as parameters, '
+        'get_string declines them and prints the fallback text); distinct by (value, position, ctx)')
 ASSUMPTIONS = [
     'the lexical rules of MySQL, PostgreSQL, SQLite, MSSQL and Oracle are small hand-written models of the default '
     'modes (vf/oracles/targetlex.py); only the SQLite model is cross-checked against a real engine',
@@ -58,6 +69,14 @@ ASSUMPTIONS = [
     'ctx neg: the statement denotes minus the value at the position (checked by sqlite3), the literal itself must still '
     'denote the value; the re-parse clause is not applied there (the parser folds "- 7" into one constant)',
     'sqlite3 also executes the fallback text of the statement shapes (tables t1, t2; RIGHT JOIN needs SQLite >= 3.39)',
+    'mssql, two rules on top of the shared reader (vf/oracles/c07_mssql.py, from the Transact-SQL reference, not '
+    'cross-checked against an engine): inside a string constant a backslash directly followed by LF / CR LF is a line '
+    'continuation and both are dropped; a constant without the N prefix is varchar - converted to the code page of '
+    "the database's default collation - so it denotes its value for certain only when the value is ASCII (databases "
+    'with a UTF-8 default collation keep every character: not the default mode)',
+    'further statement forms (vf/gens/c07_shapes.py): sqlite3 judges the selected / stored value only where the form '
+    "keeps the plain position's meaning (engine 'pos'); for the others the literal is evaluated and the statement must "
+    'execute; row values inside an IN list and the operator -> are not SQLite syntax and are judged by tokens only',
 ]
 def _floors(nontrivial, by_type, by_tag, out_own, out_sa, engine, placeholders, fallback, per_pos):
     f = {'__nontrivial__': nontrivial, 'out:to_string': out_own, 'engine:statement': engine,
@@ -91,6 +110,10 @@ FLOORS['quick'].update({'ctx:coalesce': 400, 'ctx:fn_from': 400, 'ctx:case': 400
 FLOORS['thorough'].update({'ctx:coalesce': 4000, 'ctx:fn_from': 4000, 'ctx:case': 4000, 'ctx:right_join': 3000, 'ctx:limit_offset': 3000, 'ctx:two_rows': 3000, 'ctx:neg': 3000,
                            'fallback:sqlite': 5000, 'fallback:postgresql': 5000, 'fallback:mysql': 5000,
                            'fallback:mssql': 10000, 'fallback:oracle': 9000})
+FLOORS['quick'].update({'ctx:' + c: 45 for c in c07_shapes.NAMES})         # deterministic part: >= 150 values per context
+FLOORS['thorough'].update({'ctx:' + c: 80 for c in c07_shapes.NAMES})
+FLOORS['quick']['v:backslash-newline'] = 150
+FLOORS['thorough']['v:backslash-newline'] = 700
 N = {'quick': 1200, 'thorough': 12000}
 EXH_LEN = {'quick': 3, 'thorough': 4}
 
@@ -107,7 +130,7 @@ SEEDS = [
     'a\nb', '\n', '\r\n', '\t', 'a\x00b', '\x00', "\x00'", '\\0', '\\n', '\\%', '\\_', '\\Z', '\\x', "\\\\", '\\"', '"\\',
     "E'x'", "N'x'", "q'[x]'", "x'00'", '\x1a', '\x08', '\x7f', '\u2028', '\ufeff', 'é中', '\U0001f600', "\u02bc", "\uff07",
     '', ' ', 'NULL', 'null', 'true', '0', '1e5', '2020-01-02', 'zq', 'w', 'c1', 'select', "' || (SELECT 1) || '",
-    "\\' || (SELECT 1) -- \n", "a'b", "a''b", "a\\'b", "a\\\\'b", "a\\''b", "'a", "a'", 'a' * 300, "'" * 40, '\\' * 41,
+    "\\' || (SELECT 1) -- \n", 'a\\\nb', 'a\\\r\nb', '\\\\\n', 'C:\\dir\\\nnext', "a'b", "a''b", "a\\'b", "a\\\\'b", "a\\''b", "'a", "a'", 'a' * 300, "'" * 40, '\\' * 41,
 ]
 INT_SEEDS = [0, 1, -1, 5, 7, -7, 2 ** 31, -2 ** 31, 2 ** 63 - 1, -2 ** 63, 2 ** 63, 10 ** 30, -10 ** 30, 2 ** 53 + 1]
 FLOAT_SEEDS = ['0.0', '-0.0', '1.5', '-2.5', '7.25', '1e-07', '1e+22', '-1e-05', '1e+16', '0.1', '123456789.123456789',
@@ -173,6 +196,8 @@ def value_classes(val):
             out.append('v:non-ascii')
         if v == '':
             out.append('v:empty')
+        if c07_mssql.has_continuation(v):
+            out.append('v:backslash-newline')
     elif t == 'float':
         f = float(val['v'])
         if not math.isfinite(f):
@@ -217,6 +242,10 @@ def record_features(val):
             f.append('v:edge-quote')
         if "''" in v:
             f.append('v:adjacent-quotes')
+        if c07_mssql.has_continuation(v):
+            f.append('v:backslash-newline')
+        if not v.isascii():
+            f.append('v:non-ascii')
     return f
 
 
@@ -253,6 +282,10 @@ def make_statement(val, pos, ctx='plain'):
             return ast.Update(table=I('t1'), update_columns={'c2': neg()},
                               where=ast.BinaryOperation('=', args=[I('c1'), C(5)]))
         raise ValueError((pos, ctx))
+    if ctx in c07_shapes.CONTEXTS:
+        # the positions of the property in further statement forms (vf/gens/c07_shapes.py)
+        return c07_shapes.build(ctx, pos, lambda alias=None: make_node(val, alias),
+                                py_value(val) if pos == 'insert_raw' else None)
     if ctx in WRAPS:
         # the constant one level down inside an expression that hands its value on unchanged (so that the engine clause
         # still knows what the position denotes): function argument, function argument in front of FROM, CASE result
@@ -324,6 +357,8 @@ CTX_POS = {'plain': POSITIONS,
            'neg': ('sel', 'sel_alias', 'where', 'in', 'insert', 'update'),
            'coalesce': _WRAP_POS, 'fn_from': _WRAP_POS, 'case': _WRAP_POS}
 SHAPES = [(c, p) for c in ('right_join', 'limit_offset', 'two_rows', 'neg') + WRAPS for p in CTX_POS[c]]
+CTX_POS.update({c: c07_shapes.CONTEXTS[c][0] for c in c07_shapes.NAMES})
+SHAPES2 = list(c07_shapes.SHAPES)          # further statement forms around the position
 
 
 def in_domain(val, pos, ctx='plain'):
@@ -335,8 +370,6 @@ def in_domain(val, pos, ctx='plain'):
         return 'substring(x FROM 1) hands on text values only'
     if val['t'] == 'float' and not math.isfinite(float(val['v'])):
         return 'non-finite float: no SQL literal denotes it'
-    if pos == 'insert_raw' and val['t'] in ('date', 'datetime'):
-        return 'raw date in Insert.values: not a value form the renderer takes'
     if pos == 'insert_raw' and val['t'] == 'null' and val.get('node') == 'NullConstant':
         return 'insert_raw has no node form'
     return None
@@ -347,6 +380,7 @@ def in_domain(val, pos, ctx='plain'):
 def prepare(tier):
     from mindsdb_sql.render.sqlalchemy_render import SqlalchemyRender
     targetlex.selftest()
+    c07_mssql.selftest()
     for name in SA_NAMES:
         _R[name] = SqlalchemyRender(name)
     _S0.clear()
@@ -428,7 +462,15 @@ def literal_verdict(X, val, target):
         tok = X[0]
         if tok.extra not in ('', 'n', 'dq'):        # "..." is a string for the targets that lex it as 'str'
             return 'structure', 'literal:other-form', f'literal form {tok.extra!r}: {_short(tok.src)}'
-        if t == 'str':
+        mssql = t == 'str' and targetlex.canonical(target) == 'mssql'
+        if mssql:
+            # two rules of T-SQL constants the shared reader does not model (vf/oracles/c07_mssql.py)
+            got, national = c07_mssql.denoted(tok)
+            ok = got == v
+            if not ok and tok.value == v:
+                return 'value', 'literal:line-continuation', \
+                    f'literal {_short(tok.src)}: backslash + line break continue the constant, it denotes {_short(got)!r}, value is {_short(v)!r}'
+        elif t == 'str':
             ok = tok.value.admits(v) if lib else tok.value == v
             got = tok.value.canonical if lib else tok.value
         else:
@@ -440,6 +482,9 @@ def literal_verdict(X, val, target):
                 ok = False
         if not ok:
             return 'value', 'literal:other-value', f'literal {_short(tok.src)} denotes {_short(got)!r}, value is {_short(v)!r}'
+        if mssql and not national and not v.isascii():
+            return 'value', 'literal:code-page', \
+                f'literal {_short(tok.src)} has no N prefix: a varchar constant, converted to the code page of the database (characters outside it are lost)'
         return None
     if t in ('int', 'float'):
         neg = v < 0 or (t == 'float' and v == 0 and math.copysign(1, v) < 0)
@@ -481,7 +526,7 @@ def literal_verdict(X, val, target):
     raise ValueError(t)
 
 
-def token_oracle(text, text0, val, pos, target):
+def token_oracle(text, text0, val, pos, target, auto_label=None):
     """-> (problems, X) ; problems = list of (kind, feature, detail); X = tokens at the literal position (or None)."""
     lib = targetlex.canonical(target) == targetlex.LIBRARY
     toks = targetlex.tokens(text, target)
@@ -492,7 +537,7 @@ def token_oracle(text, text0, val, pos, target):
         return [('structure', 'sentinel-not-a-literal', f'benign value prints as {_short(text0, 160)}')], None
     after0 = toks0[i0 + 1:]
     label_at = None
-    if pos == 'sel' and len(after0) >= 2 and after0[0].kind == 'word' and after0[0].src.upper() == 'AS' \
+    if (pos == 'sel' if auto_label is None else auto_label) and len(after0) >= 2 and after0[0].kind == 'word' and after0[0].src.upper() == 'AS' \
             and after0[1].kind in ('word', 'qident'):
         label_at = 1
     probs = []
@@ -582,7 +627,7 @@ def _eq_engine(got, want, t):
     return type(got) is type(want) and got == want
 
 
-def engine_check(text, X, val, pos, ctx='plain'):
+def engine_check(text, X, val, pos, ctx='plain', mode='pos'):
     """Ask sqlite3.  -> list of (kind, feature, detail)"""
     t = val['t']
     lit_want = engine_value(val)
@@ -600,7 +645,12 @@ def engine_check(text, X, val, pos, ctx='plain'):
         exact = t != 'float' and not (t == 'int' and not -2 ** 63 <= want < 2 ** 63)
         c.execute('DELETE FROM t1')
         c.execute('DELETE FROM t2')
-        if pos in ('sel', 'sel_alias'):
+        if mode == 'run':
+            # the statement must be one sqlite3 executes; what it selects / stores is not judged for this form
+            cur = c.execute(text)
+            if cur.description is not None:
+                cur.fetchall()
+        elif pos in ('sel', 'sel_alias'):
             rows = c.execute(text).fetchall()
             if len(rows) != 1 or len(rows[0]) != 1 or not _eq_engine(rows[0][0], want, t):
                 probs.append(('engine', 'engine:statement', f'sqlite3 returns {_short(repr(rows))}'))
@@ -618,7 +668,7 @@ def engine_check(text, X, val, pos, ctx='plain'):
         elif pos in ('insert', 'insert_raw'):
             c.execute(text)
             rows = c.execute('SELECT c1, c2 FROM t1 ORDER BY c1').fetchall()
-            second_ok = rows[1:] == ([(6, 'w')] if ctx == 'two_rows' else [])
+            second_ok = rows[1:] == ([(6, 'w')] if ctx in ('two_rows', 'row2') else [])
             if not second_ok or rows[0][0] != 5 or not _eq_engine(rows[0][1], want, t):
                 probs.append(('engine', 'engine:statement', f'sqlite3 stored {_short(repr(rows))}'))
         elif pos == 'update':
@@ -741,7 +791,7 @@ def judge_output(out, val, pos, col, cache, ctx='plain'):
         return recs
 
     # get_exec_params on a plain insert through SQLAlchemy: placeholders + parameter list
-    if method == 'get_exec_params' and pos == 'insert_raw' and r['path'] == 'sa':
+    if method == 'get_exec_params' and pos == 'insert_raw' and r['path'] == 'sa' and ctx != 'raw_not_plain':
         col.cls('exec-params:placeholders')
         if text != text0:
             rec('structure', site, ['placeholders-differ'], f'statement text depends on the value: {_short(text, 200)}', text)
@@ -750,10 +800,11 @@ def judge_output(out, val, pos, col, cache, ctx='plain'):
             rec('structure', site, ['placeholders-with-literal'], f'parameterised text holds a literal: {_short(text, 200)}', text)
         p = r['params']
         v = py_value(val)
-        ok = isinstance(p, list) and len(p) == (2 if ctx == 'two_rows' else 1) and isinstance(p[0], list) \
-            and len(p[0]) == 2 and p[0][0] == 5 \
-            and type(p[0][1]) is type(v) and (p[0][1] == v or (v != v and p[0][1] != p[0][1])) \
-            and (ctx != 'two_rows' or p[1] == [6, 'w'])
+        rows = make_statement(val, pos, ctx).values          # the rows as they were handed in
+        ok = isinstance(p, list) and len(p) == len(rows) and all(
+            isinstance(a, list) and len(a) == len(b) and all(
+                type(x) is type(y) and (x == y or (x != x and y != y)) for x, y in zip(a, b))
+            for a, b in zip(p, rows)) and any(type(x) is type(v) and (x == v or v != v) for a in p for x in a)
         if not ok:
             rec('params', site, [], f'parameter list {_short(repr(p), 200)} does not carry the value {_short(repr(v))}', text)
         return recs
@@ -768,16 +819,17 @@ def judge_output(out, val, pos, col, cache, ctx='plain'):
                 recs.append(y)
             return recs
 
-    probs, X = token_oracle(text, text0, val, pos, target)
+    probs, X = token_oracle(text, text0, val, pos, target, auto_label=(pos == 'sel' or ctx == 'ins_select'))
     diag = emit_diagnosis(text, text0, val, out) if probs else []
     for kind, feature, detail in probs:
         rec(kind, site, [feature] + diag, f'{detail}; output: {_short(text, 200)}', text)
-    if ctarget == 'sqlite' and (r['path'] == 'sa' or ctx != 'plain'):
+    emode = c07_shapes.engine_mode(ctx) if ctx in c07_shapes.CONTEXTS else 'pos'
+    if ctarget == 'sqlite' and (r['path'] == 'sa' or ctx != 'plain') and emode is not None:
         col.cls('engine:statement')
-        eprobs = engine_check(text, X if not probs else None, val, pos, ctx)
+        eprobs = engine_check(text, X if not probs else None, val, pos, ctx, emode)
         for kind, feature, detail in eprobs:
             rec(kind, site, [feature] + (['model-agrees'] if probs else ['model-passes']), f'{detail}; output: {_short(text, 200)}', text)
-        if probs and not eprobs and val['t'] == 'str' and not all(p[0] == 'label' for p in probs) and \
+        if probs and not eprobs and emode == 'pos' and val['t'] == 'str' and not all(p[0] == 'label' for p in probs) and \
                 not (pos == 'in' and val['v'] == 'w'):          # the IN list holds 'w' itself: the engine clause is blind there
             # the hand-written sqlite reader sees a problem the engine does not: the reader is wrong (harness error)
             raise AssertionError(f'sqlite model disagrees with the engine on {text!r}: {probs}')
@@ -883,6 +935,15 @@ def shape_exhaustive_values(tier):
             yield val_str(''.join(combo))
 
 
+SHAPE2_EXH_LEN = {'quick': 1, 'thorough': 2}
+
+
+def shape2_exhaustive_values(tier):
+    for n in range(1, SHAPE2_EXH_LEN[tier] + 1):
+        for combo in itertools.product(ALPHABET, repeat=n):
+            yield val_str(''.join(combo))
+
+
 def seed_values():
     for s in SEEDS:
         yield val_str(s)
@@ -945,9 +1006,11 @@ def values(draw, kinds=None):
 
 @st.composite
 def cases(draw):
-    if draw(st.integers(0, 3)) == 0:
-        # a statement shape around the position: one the renderers decline (fallback text) / a unary minus over the constant
-        ctx, pos = draw(st.sampled_from(SHAPES))
+    r = draw(st.integers(0, 7))
+    if r <= 2:
+        # a statement shape around the position: one the renderers decline (fallback text) / a unary minus over the
+        # constant / a value-preserving wrapper (r = 0, 1); a further statement form of vf/gens/c07_shapes.py (r = 2)
+        ctx, pos = draw(st.sampled_from(SHAPES2 if r == 2 else SHAPES))
         val = draw(values(['int', 'float'] if ctx == 'neg' else None))
         if in_domain(val, pos, ctx):
             pos = CTX_POS[ctx][0]
@@ -980,7 +1043,20 @@ def run_shard(col, k, nshards, tier, seed):
             c = {'val': val, 'pos': pos, 'ctx': ctx}
             for rec in judge(c, col):
                 col.fail(rec, c)
+    shape2_vals = [v for v in itertools.chain(seed_values(), shape2_exhaustive_values(tier))]
+    for val in shape2_vals:
+        for ctx, pos in SHAPES2:
+            i += 1
+            if i % nshards != k:
+                continue
+            c = {'val': val, 'pos': pos, 'ctx': ctx}
+            for rec in judge(c, col):
+                col.fail(rec, c)
     if k == 0:
+        col.exhaustive_parts.append(
+            f'further statement forms around the position (vf/gens/c07_shapes.py): {len(shape2_vals)} values (the fixed '
+            f'seeds + all strings of length <= {SHAPE2_EXH_LEN[tier]} over the hostile alphabet) x '
+            f'{[c + "/" + p for c, p in SHAPES2]}')
         col.exhaustive_parts.append(
             f'statement shapes around the position: {len(shape_vals)} values (the fixed seeds + all strings of length <= '
             f'{SHAPE_EXH_LEN[tier]} over the hostile alphabet) x {[c + "/" + p for c, p in SHAPES if c != "neg"]} (shapes '
